@@ -107,7 +107,7 @@ def assignments(rng, names, count):
         cp = rng.choice([x for x in ["H", "N", "H_", "M", "V", "K", "Educe__N", "T"] if x != tp])
         lt = rng.choice([x for x in lower if x not in ("static",)])
         vs = rng.sample(sorted({x for x in upper + ["Some", "None", "Ok", "Err", "Equal", "Less", "Greater"] if x not in (tp, cp)}), 3)
-        if i % 5 == 3 and "Target" not in (tp, cp):
+        if i % 5 == 3 and "Target" not in (tp, cp) and "Target" not in vs:
             vs[0] = "Target"          # the associated type of Deref
         ty = rng.choice([x for x in upper if x not in (tp, cp) and x not in vs] + ["Educe__"])
         # the generic names the generated code may pick for itself, in both declaration orders
